@@ -78,13 +78,30 @@ def bits_bytes(bits):
     return pad, v.to_bytes((len(bits) + pad) // 8, 'big')
 
 
+def segment_bits(r, pad, body, depth=0):
+    """BIT STRING segments (primitive or constructed, 8.6.4) whose bits concatenate to body less pad
+    unused bits; every segment but the last holds a multiple of eight bits, possibly none"""
+    if len(body) <= 1 or r.random() < 0.4 or depth > 2:
+        return tlv(r, 0, False, 3, bytes([pad]) + body)
+    k = r.randint(2, min(4, len(body)))
+    cuts = sorted(r.sample(range(1, len(body)), k - 1))
+    parts = [body[a:b] for a, b in zip([0] + cuts, cuts + [len(body)])]
+    if r.random() < 0.3:
+        parts.insert(r.randrange(len(parts)), b'')            # an empty segment, not last
+    segs = [segment_bits(r, 0, p, depth + 1) for p in parts[:-1]] + [segment_bits(r, pad, parts[-1], depth + 1)]
+    return tlv(r, 0, True, 3, b''.join(segs))
+
+
 def bitstring_tlv(r, cls, num, bits):
     pad, body = bits_bytes(bits)
-    if r.random() < 0.6 or len(bits) < 9:
+    if r.random() < 0.5 or len(bits) < 9:
         return tlv(r, cls, False, num, bytes([pad]) + body)
-    # segments: every one but the last holds a multiple of 8 bits (8.6.4)
-    k = r.randint(1, len(body) - 1)
-    segs = [tlv(r, 0, False, 3, b'\x00' + body[:k]), tlv(r, 0, False, 3, bytes([pad]) + body[k:])]
+    k = r.randint(1, min(4, len(body)))
+    cuts = sorted(r.sample(range(1, len(body)), k - 1)) if k > 1 else []
+    parts = [body[a:b] for a, b in zip([0] + cuts, cuts + [len(body)])]
+    if r.random() < 0.3:
+        parts.insert(r.randrange(len(parts)), b'')
+    segs = [segment_bits(r, 0, p) for p in parts[:-1]] + [segment_bits(r, pad, parts[-1])]
     return tlv(r, cls, True, num, b''.join(segs))
 
 
